@@ -173,6 +173,10 @@ func newCDP(t *testing.T, o cdpOpts) *cdpU {
 			DrawDownFee: dec(fs[0]), IsVaultActive: true, DebtCeiling: ceil, DebtFloor: floor, IsStableMintVault: stable, MinCr: dec(mcr),
 			PairName: name, AssetOutOraclePrice: oraclePriceOut, AssetOutPrice: 1_000_000, MinUsdValueLeft: 100_000,
 		}
+		if !oraclePriceOut {
+			// fixed debt prices at, above and below par (a non-par price makes amount*price/decimals fractional)
+			m.AssetOutPrice = []uint64{1_000_000, 1_010_000, 999_999}[(n+o.variant)%3]
+		}
 		if stable {
 			m.StabilityFee, m.ClosingFee, m.MinCr = dec("0"), dec("0"), dec("1")
 			m.DebtFloor = sdk.NewInt(1000)
@@ -192,7 +196,7 @@ func newCDP(t *testing.T, o cdpOpts) *cdpU {
 		addProduct(app, "uatom", "ucmst", "ATOM-A", false, true)
 		addProduct(app, "weth-wei", "ucmst", "WETH-A", false, false)
 		addProduct(app, "wbtc-sat", "ucmst", "WBTC-A", false, true)
-		addProduct(app, "uatom", "ucmtw", "ATOM-T", false, true)
+		addProduct(app, "uatom", "ucmtw", "ATOM-T", false, (o.variant+int(app))%2 == 0)
 		addProduct(app, "uusdc", "ucmst", "USDC-PSM", true, true)
 		addProduct(app, "adai", "ucmst", "DAI-PSM", true, true)
 		addProduct(app, "uusdc", "ucmtw", "USDC-PSMT", true, true)
